@@ -12,6 +12,7 @@
      caskethttp/httpserver/replacer.go  replacer.Replace scanning loops + getSubstitution's indexing
    Definitions only; proofs are in C19_Proofs.v. *)
 Require Import V.Lib.
+Require V.GoNet.
 Open Scope N_scope.
 
 (* ------------------------------------------------------------------------------------------ *)
@@ -911,6 +912,19 @@ Definition label_subst (host nstr : bytes) : res (option bytes) :=
     do l <- idx labels (Z.to_nat (n - 1)); Ok (Some l)
   end.
 
+(* SPECIFICATION of {labelN} (no checked indexing, no reference to label_subst): the N-th
+   dot-separated piece of the Host AS SENT (port, brackets and all), the empty value when N is
+   not a number in 1..number of pieces *)
+Definition label_spec (host nstr : bytes) : option bytes :=
+  let pieces := split 46 host in
+  match atoi nstr with
+  | Some n => if (1 <=? n)%Z && (n <=? Z.of_nat (length pieces))%Z
+              then Some (nth (Z.to_nat (n - 1)) pieces []) else None
+  | None => None
+  end.
+Definition obytes_beq (a b : option bytes) : bool :=
+  match a, b with Some x, Some y => beq x y | None, None => true | _, _ => false end.
+
 (* ------------------------------------------------------------------------------------------ *)
 (* proxy.go createUpstreamRequest: X-Forwarded-For folding                                      *)
 (* ------------------------------------------------------------------------------------------ *)
@@ -960,6 +974,28 @@ Definition oinfo_beq (a b : option info) : bool :=
 Definition res_oinfo (r : res info) : option info := match r with Ok i => Some i | Panic => None end.
 Definition blist_beq := list_beq beq.
 Definition sum_nat (l : list nat) : nat := fold_right Nat.add O l.
+
+(* ------------------------------------------------------------------------------------------ *)
+(* replacer.go {hostonly} / {server_port}: net.SplitHostPort (GoNet's model) of the peer's Host   *)
+(* ------------------------------------------------------------------------------------------ *)
+Definition host_only (host : bytes) : bytes :=
+  match GoNet.split_host_port host with Some (h, _) => h | None => host end.
+Definition lit_80 : bytes := [56; 48].
+Definition server_port (host : bytes) : bytes :=                      (* request without TLS *)
+  match GoNet.split_host_port host with Some (_, p) => p | None => lit_80 end.
+
+(* ------------------------------------------------------------------------------------------ *)
+(* what the property demands of ONE connection of a listener history: its recorded hello is the *)
+(* implementation's own stateless parse [odirect] of the first record of ITS OWN bytes [w]      *)
+(* ------------------------------------------------------------------------------------------ *)
+Definition own_spec (parse : bytes -> option info) (w : bytes) (orec : option info) (odirect : info) : bool :=
+  let none := match orec with None => true | Some _ => false end in
+  if (5 <=? length w)%nat then
+    let len := N.to_nat (u16 (nth 3 w 0) (nth 4 w 0)) in
+    if (5 + len <=? length w)%nat
+    then oinfo_beq orec (Some odirect) && oinfo_beq (parse (firstn len (skipn 5 w))) (Some odirect)
+    else none
+  else none.
 
 Inductive case :=
 (* raw bytes through parseRawClientHello; obs = None when the implementation panicked *)
@@ -1021,7 +1057,14 @@ Inductive case :=
 (* {labelN} with Host [host]; obs = None for the empty value *)
 | CLabel (host nstr : bytes) (obs_panic : bool) (obs : option bytes)
 (* proxy: X-Forwarded-For values sent by the peer, connection address; obs = header at the backend *)
-| CXff (prior : option (list bytes)) (ip : bytes) (obs_panic : bool) (obs : bytes).
+| CXff (prior : option (list bytes)) (ip : bytes) (obs_panic : bool) (obs : bytes)
+(* the REAL tlsHelloListener.Accept (Server.Serve over a scripted listener): [evs] = the accepts and
+   the reads each scripted connection actually delivered, in order; obs = recorded per connection
+   (read before the server closed it), direct = the implementation's parse of each connection's
+   own first record *)
+| CSeq (evs : list ev) (obs : list (option info)) (direct : list info) (obs_panic : bool)
+(* {hostonly} and {server_port} (no TLS) with Host [host] *)
+| CHostOnly (host : bytes) (obs_panic : bool) (obs_host obs_port : bytes).
 
 (* values of the placeholders as observed from the implementation; a placeholder that is not in
    the table gets what getSubstitution returns for unknown names: "" for {?name} and {$name}
@@ -1202,7 +1245,28 @@ Definition judge (c : case) : N :=
                    | Ok None => negb op && match obs with None => true | Some _ => false end
                    | Ok (Some l) => negb op && match obs with Some o => beq l o | None => false end
                    end in
-      verdict agree (negb op)
+      (* no panic, and the value is the N-th dot-separated piece of the Host as the peer sent it *)
+      verdict agree (negb op && obytes_beq obs (label_spec host nstr))
   | CXff prior ip op obs =>
       verdict (negb op && beq (xff_fold prior ip) obs) (negb op && beq (last_elem obs) ip)
+  | CSeq evs obs direct op =>
+      let ids := seq 0 (length obs) in
+      let agree := match l_run true (l_init []) evs with
+                   | Ok st => negb op && forallb (fun io => oinfo_beq (recorded_for st (fst io)) (snd io)) (combine ids obs)
+                   | Panic => op
+                   end in
+      let own := own_segs evs in
+      verdict agree
+        (negb op && (length direct =? length obs)%nat &&
+         forallb (fun iod => own_spec (fun b => res_oinfo (parse_raw_client_hello b))
+                                      (match own (fst (fst iod)) with Some l => concat l | None => [] end)
+                                      (snd (fst iod)) (snd iod))
+                 (combine (combine ids obs) direct))
+  | CHostOnly host op oh op_ =>
+      verdict (negb op && beq (host_only host) oh && beq (server_port host) op_)
+              (* independent of the model: the value is a piece of the Host, the port what follows
+                 its last colon *)
+              (negb op && (contains host oh) &&
+               (beq oh host && beq op_ lit_80 ||
+                beq (oh ++ [58] ++ op_) host || beq ([91] ++ oh ++ [93; 58] ++ op_) host))
   end.
